@@ -306,7 +306,7 @@ def loadPickleAutoref (f : PickleFile) (levels : Bool) : M Roots := fun m =>
 /-! ### whole manager: `_dump_manager`, `_load_manager` -/
 
 /-- `u: (level, low, high)` of `_succ` -/
-def nodeEntry (x : Nat × Nd) : PEntry := ⟨x.1, x.2.lvl, some x.2.lo, some x.2.hi⟩
+def dumpNodeEntry (x : Nat × Nd) : PEntry := ⟨x.1, x.2.lvl, some x.2.lo, some x.2.hi⟩
 
 /-- `(level, low, high): u` of `_pred` -/
 def predEntry (x : List Int × Nat) : Option PEntry :=
@@ -318,7 +318,7 @@ def dumpManager (m : Mgr) : ManagerFile :=
   { vars := m.tbl.vars.toList
     roots := m.roots
     pred := ⟨1, m.nvars, none, none⟩ :: m.pred.toList.filterMap predEntry
-    succ := ⟨1, m.nvars, none, none⟩ :: m.tbl.succ.toList.map nodeEntry
+    succ := ⟨1, m.nvars, none, none⟩ :: m.tbl.succ.toList.map dumpNodeEntry
     ref := m.ref.toList
     minFree := m.minFree }
 
